@@ -530,7 +530,51 @@ struct St {
     lanes: u64,
 }
 
+/// Outputs of const-sized array types (also nested, also with zero-sized elements) decode to the
+/// value with the lengths that the constants give.
+fn output_probe(ctx: &Ctx, rng: &mut Rng, st: &mut St) {
+    let (r, c) = (rng.usize_below(4), rng.usize_below(4));
+    let src = "const R: usize = PARTY_0::R;\nconst C: usize = PARTY_1::C;\nstruct Z {}\npub fn main(a: [[u8; C]; R], b: [[bool; const { C + 0usize }]; const { R + 0usize }], z: [Z; R], zz: [[Z; C]; const { R }], x: u8) -> ([[u8; C]; R], [[bool; const { C + 0usize }]; const { R + 0usize }], [Z; R], [[Z; C]; const { R }], u8) {\n    (a, b, z, zz, x)\n}\n";
+    let mut consts: garble_lang::GarbleConsts = HashMap::new();
+    consts.entry("PARTY_0".into()).or_default().insert("R".into(), Literal::NumUnsigned(r as u64, UnsignedNumType::Usize));
+    consts.entry("PARTY_1".into()).or_default().insert("C".into(), Literal::NumUnsigned(c as u64, UnsignedNumType::Usize));
+    let rows = |elem: &str| format!("[{}]", vec![format!("[{}]", vec![elem; c].join(", ")); r].join(", "));
+    let want = format!("({}, {}, [{}], {}, 0)", rows("0"), rows("false"), vec!["Z {}"; r].join(", "), rows("Z {}"));
+    let case = json!({"program": src, "R": r, "C": c, "expected_output_for_zero_inputs": want});
+    match catch(|| garble_lang::compile_with_constants(src, consts)) {
+        Err(p) => ctx.violation(&format!("compile_with_constants panicked on the output probe: {p}"), case),
+        Ok(Err(e)) => {
+            st.counts.inc("output probe: rejected");
+            if st.counts.get("output probe: rejected") <= 1 {
+                ctx.inconclusive(&format!("output probe rejected: {}", e.prettify(src).chars().take(300).collect::<String>()));
+            }
+        }
+        Ok(Ok(prg)) => {
+            let circ = gl::ssa(&prg);
+            let inputs: Vec<Vec<bool>> = circ.input_gates.iter().map(|n| vec![false; *n]).collect();
+            match catch(|| {
+                let out = prg.circuit.eval(&inputs);
+                prg.parse_output(&out).map(|l| l.to_string())
+            }) {
+                Err(p) => ctx.violation(&format!("output probe: eval / parse_output panicked: {p}"), case),
+                Ok(Err(e)) => ctx.violation(&format!("output probe: parse_output fails: {e:?}"), case),
+                Ok(Ok(text)) => {
+                    st.counts.inc("output probe: decoded outputs of const-sized types compared");
+                    if text != want {
+                        let mut case = case;
+                        case["decoded"] = json!(text);
+                        ctx.violation("output probe: the decoded output of a const-sized array type does not have the lengths the constants give", case);
+                    }
+                }
+            }
+        }
+    }
+}
+
 fn one_case(ctx: &Ctx, rng: &mut Rng, st: &mut St) {
+    if rng.chance(1, 10) {
+        output_probe(ctx, rng, st);
+    }
     let case = gen_case(rng);
     st.distinct.insert(crate::util::fnv(case.with_consts.as_bytes()));
     for u in &case.uses {
